@@ -266,7 +266,25 @@ fn key_package_case(relays: &[u8], protected: bool, muts: &[u8], rep: &mut CaseR
     // the listed ambiguities must be refused
     for m in muts {
         let t: Vec<Tag> = tags.clone();
-        let (ev2, what): (Event, &str) = match m % 12 {
+        let par = (m / 18) as usize;
+        let (ev2, what): (Event, &str) = match m % 18 {
+            12 => {
+                // a proper prefix of the real reference (1, 2, 4, 8, 16, 24, 31 bytes ...)
+                let n = [1usize, 2, 4, 8, 16, 24, 31, 30, 12, 3, 5, 6, 7, 9, 10][par % 15];
+                (sign(Kind::MlsKeyPackage, &content, set_tag(&t, "i", &i_tag[..(2 * n).min(i_tag.len())]), &keys), "i tag is only a prefix of the real reference")
+            }
+            13 => (sign(Kind::MlsKeyPackage, &content, set_tag(&t, "i", &format!("{i_tag}{}", "ab".repeat(1 + par % 8))), &keys), "i tag is the real reference plus extra bytes"),
+            14 => {
+                let mut raw = hex::decode(&i_tag).unwrap_or_default();
+                if !raw.is_empty() {
+                    let at = [0usize, raw.len() - 1, raw.len() / 2][par % 3];
+                    raw[at] ^= 1 << (par % 8);
+                }
+                (sign(Kind::MlsKeyPackage, &content, set_tag(&t, "i", &hex::encode(raw)), &keys), "i tag differs from the real reference in one bit")
+            }
+            15 => (sign(Kind::MlsKeyPackage, &content, set_tag(&t, "mls_ciphersuite", "0x1"), &keys), "ciphersuite tag 0x1"),
+            16 => (sign(Kind::MlsKeyPackage, &content, set_tag(&t, "mls_ciphersuite", "0x00001"), &keys), "ciphersuite tag 0x00001"),
+            17 => (sign(Kind::MlsKeyPackage, &content, set_tag(&t, "mls_protocol_version", "1.00"), &keys), "protocol version 1.00"),
             0 => (sign(Kind::MlsKeyPackage, &content, drop_tag(&t, "encoding"), &keys), "missing encoding tag"),
             1 => (sign(Kind::MlsKeyPackage, &content, set_tag(&t, "encoding", "hex"), &keys), "encoding tag says hex"),
             2 => {
@@ -540,7 +558,7 @@ pub fn main(args: &Args) -> i32 {
                 .prop_map(|(version, gid, name, description, admins, relays, present, seed)| ExtValue { version, gid, name, description, admins, relays, present, seed });
             prop_oneof![
                 12 => (ext, prop::collection::vec(ext_mut.clone(), 0..6)).prop_map(|(v, muts)| Case::Extension { v, muts }),
-                2 => (prop::collection::vec(any::<u8>(), 0..5), any::<bool>(), prop::collection::vec(0u8..12, 0..6)).prop_map(|(relays, protected, muts)| Case::KeyPackage { relays, protected, muts }),
+                2 => (prop::collection::vec(any::<u8>(), 0..5), any::<bool>(), prop::collection::vec(any::<u8>(), 0..8)).prop_map(|(relays, protected, muts)| Case::KeyPackage { relays, protected, muts }),
                 2 => ("[ -~]{0,30}", prop::collection::vec(0u8..7, 0..5)).prop_map(|(name, muts)| Case::Welcome { name, muts }),
                 2 => (0u8..5, prop_oneof![3 => "[a-zA-Z0-9 _.\\-]{1,40}", 1 => "\\PC{1,30}"], 0u16..3000, prop::collection::vec(0u8..11, 0..5)).prop_map(|(mime, filename, size, muts)| Case::Imeta { mime, filename, size, muts }),
             ]
